@@ -51,6 +51,7 @@ const (
 	actErrno = 0x00050000
 	actKillP = 0x80000000
 	actLog   = 0x7ffc0000
+	actTrace = 0x7ff00000 // no tracer attached: the kernel fails the call with ENOSYS
 )
 
 func probeNr(name string) uint64 { return uint64(vd.ArchInfo("x86_64").SyscallNames[name]) }
@@ -98,7 +99,7 @@ func genDecideOne(r *rand.Rand) DecideCase {
 	used := map[string]bool{}
 	var operands []uint64
 	for g := 0; g < ng; g++ {
-		grp := vd.Group{Action: []uint32{actErrno, actErrno, actAllow, actKillP, actLog, actErrno | 2, actErrno | 13, actErrno | 38, actErrno | 4094}[r.Intn(9)]}
+		grp := vd.Group{Action: []uint32{actErrno, actErrno, actAllow, actKillP, actLog, actErrno | 2, actErrno | 13, actErrno | 38, actErrno | 4094, actTrace}[r.Intn(10)]}
 		cnt := 1 + r.Intn(3)
 		for k := 0; k < cnt; k++ {
 			n := probes[r.Intn(len(probes))]
@@ -130,6 +131,15 @@ func genDecideOne(r *rand.Rand) DecideCase {
 					nconds = 40 + r.Intn(40) // long condition lists: bridges inside an entry
 				}
 				var cs []vd.Cond
+				if r.Intn(7) == 0 {
+					// "this syscall, whatever its arguments": every condition holds for every value
+					for i := 0; i < nconds && i < 3; i++ {
+						a := uint32(r.Intn(6))
+						cs = append(cs, []vd.Cond{{Arg: a, Op: "GreaterOrEqual", Val: 0}, {Arg: a, Op: "LessOrEqual", Val: ^uint64(0)}, {Arg: a, Op: "BitsNotSet", Val: 0}}[r.Intn(3)])
+					}
+					grp.WithConds = append(grp.WithConds, vd.NameConds{Name: n, Conds: cs})
+					continue
+				}
 				for i := 0; i < nconds; i++ {
 					cnd := vd.Cond{Arg: uint32(r.Intn(6)), Op: vd.Ops[r.Intn(len(vd.Ops))], Val: vd.Operand(r)}
 					if nconds > 10 {
@@ -155,6 +165,18 @@ func genDecideOne(r *rand.Rand) DecideCase {
 			cnd := vd.Cond{Arg: uint32(r.Intn(6)), Op: []string{"Equal", "BitsSet", "GreaterThan"}[r.Intn(3)], Val: vd.Operand(r)}
 			operands = append(operands, cnd.Val)
 			grp.WithConds = append(grp.WithConds, vd.NameConds{Name: first.Name, Conds: []vd.Cond{cnd}})
+		}
+		if len(grp.WithConds) > 0 && r.Intn(4) == 0 {
+			// one more alternative for a syscall of the group: a proper prefix of one of its lists (the weaker rule
+			// comes later), or an extension of it
+			src := grp.WithConds[r.Intn(len(grp.WithConds))]
+			if len(src.Conds) >= 2 && len(src.Conds) <= 6 && r.Intn(2) == 0 {
+				grp.WithConds = append(grp.WithConds, vd.NameConds{Name: src.Name, Conds: append([]vd.Cond{}, src.Conds[:1+r.Intn(len(src.Conds)-1)]...)})
+			} else if len(src.Conds) >= 1 && len(src.Conds) <= 6 {
+				ext := vd.Cond{Arg: uint32(r.Intn(6)), Op: vd.Ops[r.Intn(len(vd.Ops))], Val: vd.Operand(r)}
+				operands = append(operands, ext.Val)
+				grp.WithConds = append(grp.WithConds, vd.NameConds{Name: src.Name, Conds: append(append([]vd.Cond{}, src.Conds...), ext)})
+			}
 		}
 		if len(grp.Names)+len(grp.WithConds) > 0 {
 			p.Groups = append(p.Groups, grp)
@@ -360,6 +382,8 @@ func outcome(dec uint32) string {
 		return fmt.Sprintf("errno:%d", dec&0xffff)
 	case actKillP:
 		return "died:sigsys"
+	case actTrace:
+		return "errno:38"
 	}
 	return fmt.Sprintf("action:%#x", dec)
 }
